@@ -11,7 +11,6 @@ open Lungo.C15
 #print axioms Lungo.C15.entries_once
 #print axioms Lungo.C15.nonmember_absent
 #print axioms Lungo.C15.coherent_rebuild
-#print axioms Lungo.C15.index_list_sorted_partial
 #print axioms Lungo.C15.coherent_new
 #print axioms Lungo.C15.coherent_insert
 #print axioms Lungo.C15.coherent_delete
@@ -45,3 +44,12 @@ open Lungo.C15
 #print axioms Lungo.C15.inv_txn_dropIndex
 #print axioms Lungo.C15.inv_txn_dropIndexByKey
 #print axioms Lungo.C15.inv_txn_expire
+#print axioms inv_runCall
+#print axioms sgood_false_iff
+#print axioms inv_sinit
+#print axioms inv_sstep
+#print axioms index_list_exact
+#print axioms index_list_sorted
+#print axioms index_scan_sorted
+#print axioms names_distinct
+#print axioms lookup_iff_mem
